@@ -85,6 +85,7 @@ type VC struct {
 	epoch     int
 	globals   []string
 	ifaceAsserts map[string]types.Type
+	cwFacts      map[string]string
 	names     map[string]int
 	tableDone bool
 	defs      map[string]string
@@ -147,6 +148,14 @@ func (vc *VC) AssumeCompTyping(name string, comp Term) {
 	case strings.HasPrefix(name, "M!"):
 		t = compElemTypes[name]
 		twoLevel = true
+	case strings.HasPrefix(name, "MV!") && strings.HasSuffix(name, "!Iface"):
+		// map values of interface type: dynamic type tags are non-negative
+		r, k := Term{"r!", SInt}, Term{"k!", Sort(strings.TrimSuffix(strings.TrimPrefix(name, "MV!"), "!Iface"))}
+		if !strings.ContainsAny(string(k.Sort), "!()") {
+			v := Sel(Sel(comp, r), k)
+			vc.Lines = append(vc.Lines, "(assert "+Forall([]Term{r, k}, Ge(ITag(v), IntLit(0)), []Term{v}).S+")")
+		}
+		return
 	}
 	if t == nil {
 		return
@@ -445,10 +454,16 @@ func (vc *VC) implementsFacts() string {
 			continue
 		}
 		itag := vc.W.Sorts.Tag(it)
+		if cw := vc.cwFacts[n]; cw != "" {
+			sb.WriteString(cw)
+		}
 		for key, tag := range vc.W.Sorts.tags {
 			ct := vc.W.Sorts.tagTypes[key]
 			if ct == nil {
 				continue
+			}
+			if _, isI := ct.Underlying().(*types.Interface); isI {
+				continue // never a dynamic type
 			}
 			sb.WriteString(fmt.Sprintf("(assert (= (implements! %d %d) %v))\n", itag, tag, types.Implements(ct, iface)))
 		}
